@@ -450,7 +450,13 @@ def check_property(pid, P, MODELS, tier, seed):
     results = []
     for model in P["models"]:
         M = MODELS[model]
-        results.append(run_model(model, M, tier, seed, os.path.join(WORK, pid, model)))
+        # a private work directory per invocation: concurrent checks of the same property must not collide
+        wdir = os.path.join(WORK, pid, "%s.%s.%d" % (model, tier, os.getpid()))
+        try:
+            results.append(run_model(model, M, tier, seed, wdir))
+            shutil.rmtree(wdir, ignore_errors=True)
+        except ToolError:
+            raise  # keep the directory: the error message points into it
     new, matched = [], {}
     for r in results:
         for v in r["violations"]:
